@@ -1,6 +1,7 @@
 """C11 — indexing and slicing follow numpy semantics on the bin grid (1-D here; ND in c11nd ops)."""
 from __future__ import annotations
 
+import copy
 from fractions import Fraction
 
 import numpy as np
@@ -19,10 +20,20 @@ class C11(Hist1Prop):
             "overflow, keep_missed on/off x index expression: int (incl. negative, out of range), slice with start/stop in "
             "[-n-2, n+2] or None (and steps 1, 2, -1, 0: refused), boolean mask (right / wrong length), integer index array or "
             "list (negative, unsorted, duplicated, out of range). Thorough tier enumerates all slices for n <= 5 exhaustively. "
-            "non-trivial = the selection is a proper non-empty subset; distinct = hash of the op list")
+            "History stream (every 8th case, oracle only): one 1-D / 2-3-d histogram object (adaptive fixed-width, fixed-width "
+            "made adaptive later, static) is indexed (slice / mask / index array / int / reversed slice; per-axis ints and "
+            "slices, select, too many indices), then changed in place keeping its identity (fill / fill_n inside, left and "
+            "right of the range, merge_bins, *=, /=, += / -= another (adaptive) histogram, set_dtype, set_adaptive, "
+            "normalize), then indexed again with the same and with other expressions (sizes follow the current bin count), "
+            "1-3 rounds: every selection is compared with numpy indexing of the bins / contents / errors the object has at "
+            "that moment. For a full tuple of integers on an N-d histogram (both streams) the returned edges are compared with the "
+            "bin's edges as well. non-trivial = the selection is a proper non-empty subset (history: after a change); distinct = "
+            "hash of the op list")
     FIELDS = {"bins", "freq", "err2", "under", "over", "total", "dtype", "keep"}
 
     def gen_case(self, rng, k, tier):
+        if k % 8 == 3:
+            return history_gen_nd(rng) if rng.random() < 0.35 else history_gen_1d(rng)
         if rng.random() < 0.45:
             from . import nd_parts
             return nd_parts.c11_gen(rng)
@@ -69,9 +80,19 @@ class C11(Hist1Prop):
 
     def run_impl(self, case):
         from .. import impl1
+        if case.get("history"):
+            return history_run(case)
         op = case["ops"][1]
         if op["op"] != "invalid" or case.get("kind") == "histn":
-            return super().run_impl(case)
+            io = super().run_impl(case)
+            if case.get("kind") == "histn" and isinstance(io["outs"][1]["ret"], dict):
+                # a full tuple of integers: the generic N-d runner reports the content only; the edges of the bin are read
+                # here, from the same call on an identically built histogram (a private key: not part of the model diff)
+                from .. import implnd
+                s = impl1.Store()
+                implnd.step(s, case["ops"][0], [])
+                io["outs"][1]["ret"]["_bin"] = nd_item_bin(s.get(op["h"]), op["index"])
+            return io
         s = impl1.Store()
         log = []
         outs = [{"ret": impl1.step(s, case["ops"][0], log), "regs": [impl1.snap1(h) for h in s.regs]}]
@@ -86,12 +107,56 @@ class C11(Hist1Prop):
         return {"outs": outs, "log": log}
 
     def shrink_candidates(self, case):
-        return []
+        if not case.get("history"):
+            return
+        ops, ns = case["ops"], case["nsetup"]
+        for k in range(len(ops) - 1, ns - 1, -1):          # any operation after the setup
+            c = copy.deepcopy(case)
+            del c["ops"][k]
+            yield c
+        if not any(o.get("o") == 1 for o in ops[ns:]):      # the operand of += / -= when it is not used any more
+            keep = [o for o in ops[:ns] if o.get("out") != 1 and o.get("h") != 1]
+            if len(keep) < ns:
+                c = copy.deepcopy(case)
+                c["ops"] = copy.deepcopy(keep) + c["ops"][ns:]
+                c["nsetup"] = len(keep)
+                yield c
+        for k, op in enumerate(ops):                        # single values of a batch
+            for key in ("vs", "rows"):
+                if k >= 1 and len(op.get(key) or []) > 1 and op.get("ws") is None:
+                    for j in range(len(op[key])):
+                        c = copy.deepcopy(case)
+                        del c["ops"][k][key][j]
+                        yield c
+
+    def model_case(self, case, io):
+        # histories are outside the model's two-op language for this property: oracle only
+        return None if case.get("history") else case
+
+    def tags(self, case, io):
+        t = super().tags(case, io)
+        if case.get("history"):
+            seen = [o["before"]["bins"] for o in io["outs"] if "before" in o]
+            if any(a != b for a, b in zip(seen, seen[1:])):
+                t.append("history:indexed_again_after_the_bins_changed")
+            counts = [[len(ax) for ax in b] if case["kind"] == "histn" else len(b) for b in seen]
+            if any(a != b for a, b in zip(counts, counts[1:])):
+                t.append("history:indexed_again_after_the_bin_count_changed")
+        return t
 
     def oracle(self, case, io):
+        if case.get("history"):
+            return self.oracle_history(case, io)
         if case.get("kind") == "histn":
             from . import nd_parts
-            return nd_parts.c11_oracle(case, io)
+            fails = nd_parts.c11_oracle(case, io)
+            ret, src = io["outs"][1]["ret"], io["outs"][0]["regs"][0]
+            if isinstance(ret, dict) and "_bin" in ret:
+                # "an integer index returns that bin's edges and content": the edges, per axis
+                want = [src["bins"][a][i] for a, i in enumerate(case["ops"][1]["index"])]
+                if ret["_bin"] != want:
+                    fails.append(f"item_bin: h{case['ops'][1]['index']} returned the edges {ret['_bin']}, the bin is {want}")
+            return fails
         outs, ops = io["outs"], case["ops"]
         fails = []
         if outs[0]["ret"] == "REFUSED":
@@ -153,27 +218,407 @@ class C11(Hist1Prop):
             if sel and src["keep"] and src["under"] is not None and src["over"] is not None:
                 left = sum((Fraction(src["freq"][i]) for i in range(0, sel[0])), Fraction(0))
                 right = sum((Fraction(src["freq"][i]) for i in range(sel[-1] + 1, n)), Fraction(0))
-                if res["under"] is None or Fraction(res["under"]) != Fraction(src["under"]) + left:
+                # exact, except after an in-place normalisation in a history: the contents are rounded quotients then, and
+                # the implementation's sums of them are rounded again (float64 there: narrow types are not asked for)
+                slack = Fraction(1, 10**12) if case.get("rounded") else 0
+
+                def same(a, b):
+                    return abs(a - b) <= slack * (1 + abs(b))
+                if res["under"] is None or not same(Fraction(res["under"]), Fraction(src["under"]) + left):
                     fails.append(f"slice_underflow: underflow {res['under']}, expected {Fraction(src['under']) + left}")
-                if res["over"] is None or Fraction(res["over"]) != Fraction(src["over"]) + right:
+                if res["over"] is None or not same(Fraction(res["over"]), Fraction(src["over"]) + right):
                     fails.append(f"slice_overflow: overflow {res['over']}, expected {Fraction(src['over']) + right}")
                 if res["under"] is not None and res["over"] is not None:
-                    if Fraction(res["total"]) + Fraction(res["under"]) + Fraction(res["over"]) != \
-                       Fraction(src["total"]) + Fraction(src["under"]) + Fraction(src["over"]):
+                    if not same(Fraction(res["total"]) + Fraction(res["under"]) + Fraction(res["over"]),
+                                Fraction(src["total"]) + Fraction(src["under"]) + Fraction(src["over"])):
                         fails.append("slice_conservation: total + underflow + overflow not conserved")
         else:
             if res["under"] is not None or res["over"] is not None:
                 fails.append(f"noncontiguous_known: under/overflow read {res['under']}/{res['over']} after a mask / index-array selection")
         return fails[:6]
 
+    def oracle_history(self, case, io):
+        """every index step of a history is judged like a single selection, against the snapshot of the object taken
+        through the public properties immediately before that step"""
+        fails = []
+        changes = 0
+        rounded = False
+        for j, (op, o) in enumerate(zip(case["ops"], io["outs"])):
+            rounded = rounded or op["op"] == "normalize"
+            if "before" not in o:
+                if j < case["nsetup"] and o["ret"] == "REFUSED":
+                    return ["refused_valid: setup refused: " + "; ".join(io["log"][:2])]
+                changes += j >= case["nsetup"] and o["ret"] != "REFUSED"
+                continue
+            one = {"kind": case["kind"], "ops": [None, o["op"]], "rounded": rounded}
+            one_io = {"outs": [{"ret": "ok", "regs": [o["before"]]},
+                               {"ret": o["ret"], "regs": [o["after"], o["res"]]}], "log": o["log"]}
+            for f in self.oracle(one, one_io):
+                sig, _, rest = f.partition(":")
+                expr = "" if str(o["op"]) in rest else f"{o['op']}, "
+                fails.append(f"{sig}: op {j} ({expr}after {changes} in-place changes of the same object):{rest}")
+        return fails[:6]
+
     def nontrivial(self, case, io):
         o = io["outs"]
+        if case.get("history"):
+            changed = False
+            for j, x in enumerate(o):
+                if "before" not in x:
+                    changed = changed or (j >= case["nsetup"] and x["ret"] != "REFUSED")
+                elif changed and x["ret"] == "ok" and x["res"] is not None:
+                    if case["kind"] == "histn":
+                        if x["res"]["shape"] != x["before"]["shape"]:
+                            return True
+                    elif 0 < len(x["res"]["bins"]) < len(x["before"]["bins"]):
+                        return True
+            return False
         if case.get("kind") == "histn":
             return o[1]["ret"] == "ok" and len(o[1]["regs"]) > 0 and o[1]["regs"][-1] is not None and o[1]["regs"][-1]["shape"] != o[0]["regs"][0]["shape"]
         try:
             return o[1]["ret"] == "ok" and 0 < len(o[1]["regs"][1]["bins"]) < len(o[0]["regs"][0]["bins"])
         except Exception:
             return False
+
+
+# ------------------------------------------------------------------------------------------ histories
+# The same object is indexed, changed in place (identity kept), and indexed again. Index expressions are stored relative to
+# the bin count the object has when they are evaluated (it is not known to the generator: an adaptive histogram grows) and
+# are made concrete by `concrete_1d` / `concrete_nd` from the public bin count; the concrete expression is kept in the
+# output of the step, where the oracle (and the reader of a replay) finds it.
+INDEX_OPS = {"slice", "mask", "index_array", "item", "rev_slice", "getitem", "select", "invalid"}
+W_POOL = [1.0, 1.0, 0.5, 2.0, 0.25, 0.1]
+
+
+def _pos(raw, neg, oob, n):
+    """an index for an axis of n bins: in range (counted from the left or the right), or just outside"""
+    if oob:
+        return n + raw % 2 if not neg else -n - 1 - raw % 2
+    if n == 0:
+        return 0
+    return raw % n - (n if neg else 0)
+
+
+def _rel_pos(rng):
+    return {"i": rng.randint(0, 59), "neg": rng.random() < 0.3, "oob": rng.random() < 0.06}
+
+
+def _slice_ends(rng):
+    c = [None, None] + list(range(-7, 9))
+    return rng.choice(c), rng.choice(c)
+
+
+def index_op_1d(rng):
+    kind = rng.choice(["slice"] * 4 + ["mask"] * 2 + ["array"] * 2 + ["int", "rev"])
+    if kind == "slice":
+        a, b = _slice_ends(rng)
+        return {"op": "slice", "h": 0, "start": a, "stop": b, "out": 2}
+    if kind == "mask":
+        return {"op": "mask", "h": 0, "pat": [rng.random() < 0.5 for _ in range(rng.randint(1, 5))],
+                "dn": 0 if rng.random() < 0.85 else rng.choice([-1, 1]), "out": 2}
+    if kind == "array":
+        m = rng.randint(0, 4)
+        return {"op": "index_array", "h": 0, "rel": [_rel_pos(rng) for _ in range(m)], "as_list": m > 0 and rng.random() < 0.3,
+                "out": 2}
+    if kind == "int":
+        return {"op": "item", "h": 0, "rel": _rel_pos(rng)}
+    return {"op": "rev_slice", "h": 0, "start": rng.choice([None, 0, 1, -1]), "stop": rng.choice([None, 0, -1]),
+            "step": rng.choice([-1, -1, -2])}
+
+
+def concrete_1d(op, n):
+    o = {k: v for k, v in op.items() if k not in ("rel", "pat", "dn")}
+    if op["op"] == "mask":
+        o["mask"] = [op["pat"][i % len(op["pat"])] for i in range(max(n + op["dn"], 0))]
+    elif op["op"] == "index_array":
+        o["idx"] = [_pos(r["i"], r["neg"], r["oob"], n) for r in op["rel"]]
+    elif op["op"] == "item":
+        o["i"] = _pos(op["rel"]["i"], op["rel"]["neg"], op["rel"]["oob"], n)
+    elif op["op"] == "rev_slice":
+        o.update({"op": "invalid", "what": "slice_step"})
+    return o
+
+
+def index_op_nd(rng, d, names):
+    kind = rng.choice(["tuple"] * 4 + ["select", "select", "bare", "bad"])
+
+    def sub():
+        if rng.random() < 0.5:
+            return _rel_pos(rng)
+        c = [None, None] + list(range(-5, 7))
+        return {"s": [rng.choice(c), rng.choice(c)]}
+    if kind == "tuple":
+        return {"op": "getitem", "h": 0, "rel": [sub() for _ in range(rng.randint(1, d))], "out": 2}
+    if kind == "bare":
+        return {"op": "getitem", "h": 0, "rel": [sub()], "out": 2, "bare": True}
+    if kind == "select":
+        ax = rng.randrange(d)
+        return {"op": "select", "h": 0, "axis": names[ax] if names and rng.random() < 0.3 else ax, "_axis": ax,
+                "rel": sub(), "out": 2}
+    return {"op": "invalid", "what": rng.choice(["too_many_indices", "neg_step"]), "h": 0}
+
+
+def concrete_nd(op, shape):
+    o = {k: v for k, v in op.items() if k != "rel"}
+
+    def sub(r, n):
+        return r if "s" in r else _pos(r["i"], r["neg"], r["oob"], n)
+    if op["op"] == "getitem":
+        o["index"] = [sub(r, shape[i]) for i, r in enumerate(op["rel"])]
+    elif op["op"] == "select":
+        o["index"] = sub(op["rel"], shape[op["_axis"]])
+    return o
+
+
+def _vals(rng, lo, hi, w, where):
+    """a value inside [lo, hi) or up to three bin widths to the left / right of it (on a grid of w / 4)"""
+    q = w / 4
+    if where == "in":
+        return lo + q * rng.randint(0, max(int(round((hi - lo) / q)) - 1, 0))
+    if where == "left":
+        return lo - q * rng.randint(1, 12)
+    return hi + q * rng.randint(0, 11)
+
+
+def _scalar_change(rng, state):
+    kind = rng.choice(["imul", "imul", "idiv", "set_dtype", "normalize"])
+    if kind == "imul":
+        c, k = rng.choice([("2", "pyint"), ("3", "pyint"), ("1/2", "pyfloat"), ("2", "float32"), ("1/4", "float64")])
+        return {"op": "imul", "h": 0, "c": c, "k": k}
+    if kind == "idiv":
+        c, k = rng.choice([("2", "pyint"), ("4", "pyint"), ("1/2", "pyfloat")])
+        return {"op": "idiv", "h": 0, "c": c, "k": k}
+    if kind == "set_dtype":
+        # after a normalisation the contents are rounded quotients: no narrow float types from there on (their sums would
+        # be rounded at that type's precision)
+        return {"op": "set_dtype", "h": 0, "via_property": rng.random() < 0.5,
+                "dtype": rng.choice(["int64", "float64"] if state.get("rounded") else ["int64", "float64", "float32", "int32", "float16"])}
+    state["rounded"] = True
+    return {"op": "normalize", "h": 0, "inplace": True, "percent": rng.random() < 0.3}
+
+
+def _rounds(rng, index_op, change_op):
+    """index - change - index - ...; the first expression is evaluated again at the end"""
+    ops = []
+    first = index_op()
+    ops.append(first)
+    if rng.random() < 0.5:
+        ops.append(index_op())
+    for _ in range(rng.randint(1, 3)):
+        for _ in range(rng.choice([1, 1, 2])):
+            ops.append(change_op())
+        for _ in range(rng.choice([1, 2, 2])):
+            ops.append(copy.deepcopy(first) if rng.random() < 0.35 else index_op())
+    ops.append(copy.deepcopy(first))
+    return ops
+
+
+def history_gen_1d(rng):
+    style = rng.choice(["adaptive"] * 3 + ["fixed", "static"])
+    ops = []
+    if style == "static":
+        pairs, _ = gen1.rising_bins(rng)
+        ops.append(rand_hist_op(rng, pairs, out=0))
+        ops.append(rand_hist_op(rng, pairs, out=1))
+        ops[1]["binning"] = ops[0]["binning"]
+        w = (pairs[-1][1] - pairs[0][0]) / len(pairs)
+        rng_ = [pairs[0][0], pairs[-1][1]]
+    else:
+        w = rng.choice(W_POOL)
+        tmin, cnt = rng.randint(-3, 3), rng.randint(1, 4)
+        rng_ = [tmin * w, (tmin + cnt) * w]
+        for reg in (0, 1):
+            t, c = (tmin, cnt) if reg == 0 else (tmin + rng.randint(-3, 3), rng.randint(1, 3))
+            if reg == 1 and rng.random() < 0.25:
+                t, c = tmin, cnt
+            ops.append({"op": "empty", "out": reg, "keep": rng.random() < 0.85, "dtype": rng.choice([None, None, "float64", "int32"]),
+                        "binning": gen1.fixed_json(w, t, c, adaptive=(style == "adaptive") if reg == 0 else rng.random() < 0.6)})
+            vs = [_vals(rng, t * w, (t + c) * w, w, "in") for _ in range(rng.randint(0, 4))]
+            ops.append({"op": "fill_n", "h": reg, "vs": gen1.enc_vals(vs), "ws": None})
+    ns = len(ops)
+    state = {}
+
+    def change():
+        grow = 0.6 if style != "static" else 0.3
+        r = rng.random()
+        if r < grow:
+            where = rng.choice(["left", "right", "left", "right", "in"])
+            if rng.random() < 0.5:
+                v = _vals(rng, rng_[0], rng_[1], w, where)
+                wt, wk = rng.choice([(1, "pyint"), (1, "pyint"), (2, "pyint"), (0.5, "pyfloat")])
+                op = {"op": "fill", "h": 0, "v": rs(v), "w": rs(wt), "wk": wk, "default_w": wt == 1 and rng.random() < 0.5}
+                vs = [v]
+            else:
+                vs = [_vals(rng, rng_[0], rng_[1], w, rng.choice([where, "in"])) for _ in range(rng.randint(1, 4))]
+                ws = None if rng.random() < 0.6 else [rs(rng.randint(0, 8) / 2) for _ in vs]
+                op = {"op": "fill_n", "h": 0, "vs": gen1.enc_vals(vs), "ws": ws, "wkind": None if ws is None else "float64"}
+            if style != "static":
+                rng_[0], rng_[1] = min([rng_[0]] + vs), max([rng_[1]] + vs)
+            return op
+        if r < grow + 0.1:
+            return {"op": "merge", "h": 0, "amount": rng.randint(1, 3), "inplace": True}
+        if r < grow + 0.2:
+            return {"op": rng.choice(["iadd", "iadd", "iadd", "isub"]), "h": 0, "o": 1}
+        if r < grow + 0.27 and style == "fixed":
+            return {"op": "set_adaptive", "h": 0, "value": True}
+        if r < grow + 0.3:
+            return {"op": "set_adaptive", "h": 0, "value": rng.random() < 0.7}
+        return _scalar_change(rng, state)
+
+    ops += _rounds(rng, lambda: index_op_1d(rng), change)
+    return {"kind": "hist1", "history": True, "nsetup": ns, "ops": ops, "tags": ["stream:history", "history:1d", "style:" + style]}
+
+
+def history_gen_nd(rng):
+    d = rng.choice([2, 2, 3])
+    style = rng.choice(["adaptive"] * 3 + ["mixed", "static"])
+    from .. import gennd
+    axes, axes1, spans, widths = [], [], [], []
+    for a in range(d):
+        if style == "adaptive" or (style == "mixed" and (a == 0 or rng.random() < 0.5)):
+            w = rng.choice(W_POOL)
+            tmin, cnt = rng.randint(-3, 3), rng.randint(1, 3)
+            axes.append(gen1.fixed_json(w, tmin, cnt, adaptive=True))
+            axes1.append(gen1.fixed_json(w, tmin + rng.randint(-2, 2), rng.randint(1, 3), adaptive=True) if rng.random() < 0.75 else axes[-1])
+            spans.append([tmin * w, (tmin + cnt) * w, True])
+        else:
+            b, pairs, _ = gennd.axis_binning(rng, maxbins=3, allow_fixed=style == "static")
+            w = (pairs[-1][1] - pairs[0][0]) / len(pairs)
+            axes.append(b)
+            axes1.append(b)
+            spans.append([pairs[0][0], pairs[-1][1], False])
+        widths.append(w)
+    names = [f"ax{i}" for i in range(d)] if rng.random() < 0.5 else None
+
+    def row(where=None):
+        return [_vals(rng, spans[a][0], spans[a][1], widths[a], where or rng.choice(["in", "in", "in", "left", "right"])) for a in range(d)]
+
+    def note(rows):
+        for r in rows:
+            for a in range(d):
+                if spans[a][2]:
+                    spans[a][0], spans[a][1] = min(spans[a][0], r[a]), max(spans[a][1], r[a])
+
+    ops = []
+    for reg, ax in ((0, axes), (1, axes1)):
+        ops.append({"op": "empty", "out": reg, "axes": ax, "names": names, "keep": rng.random() < 0.85,
+                    "dtype": rng.choice([None, None, "float64", "int32"])})
+        if reg == 0:
+            rows = [row("in") for _ in range(rng.randint(0, 4))]
+        else:       # inside its own axes, so that it has no missed values
+            rows = [[_vals(rng, fl_(b, 0), fl_(b, 1), widths[a], "in") for a, b in enumerate(ax)] for _ in range(rng.randint(0, 3))]
+        ops.append({"op": "fill_n", "h": reg, "rows": gennd.enc_rows(rows), "ws": None})
+    ns = len(ops)
+    state = {}
+
+    def change():
+        r = rng.random()
+        if r < 0.6:
+            if rng.random() < 0.5:
+                rows = [row()]
+                wt, wk = rng.choice([(1, "pyint"), (1, "pyint"), (2, "pyint"), (0.5, "pyfloat")])
+                op = {"op": "fill", "h": 0, "v": gennd.enc_rows(rows)[0], "w": rs(wt), "wk": wk, "default_w": wt == 1 and rng.random() < 0.5}
+            else:
+                rows = [row() for _ in range(rng.randint(1, 4))]
+                ws = None if rng.random() < 0.6 else [rs(rng.randint(0, 8) / 2) for _ in rows]
+                op = {"op": "fill_n", "h": 0, "rows": gennd.enc_rows(rows), "ws": ws, "wkind": None if ws is None else "float64"}
+            note(rows)
+            return op
+        if r < 0.7:
+            return {"op": "merge", "h": 0, "amount": rng.randint(1, 2), "inplace": True, "axis": rng.choice([None] + list(range(d)))}
+        if r < 0.8:
+            return {"op": rng.choice(["iadd", "iadd", "iadd", "isub"]), "h": 0, "o": 1}
+        if r < 0.84:
+            return {"op": "set_adaptive", "h": 0, "value": rng.random() < 0.7}
+        return _scalar_change(rng, state)
+
+    ops += _rounds(rng, lambda: index_op_nd(rng, d, names), change)
+    return {"kind": "histn", "history": True, "nsetup": ns, "ops": ops,
+            "tags": ["stream:history", "history:nd", "nd", f"d:{d}", "style:" + style]}
+
+
+def fl_(b, side):
+    """left / right end of a binning json (as a float)"""
+    if b["t"] == "fixed":
+        w, s = float(Fraction(b["w"])), float(Fraction(b["shift"]))
+        return (b["tmin"] + (b["count"] if side else 0)) * w + s
+    return float(Fraction(b["bins"][-1][1] if side else b["bins"][0][0]))
+
+
+def nd_item_bin(h, index):
+    """the edges h[i, j, ...] reports for a full tuple of integers: [[left, right] per axis], or the refusal"""
+    try:
+        edges, _ = h[tuple(int(i) for i in index)]
+        return [[rs(l), rs(r)] for l, r in edges]
+    except Exception as e:
+        return f"REFUSED ({type(e).__name__})"
+
+
+def fingerprint(h):
+    """everything a snapshot shows, read through the same public properties, in a form that is cheap to compare"""
+    def raw(a):
+        a = np.asarray(a)
+        return (a.shape, str(a.dtype), a.tobytes())
+    binnings = [h.binning] if h.ndim == 1 else list(h.binnings)
+    edges = []
+    for b in binnings:
+        try:
+            edges.append(raw(b.numpy_bins))
+        except Exception:
+            edges.append(None)
+    missed = (repr(h.underflow), repr(h.overflow), repr(h.inner_missed)) if h.ndim == 1 else repr(h.missed)
+    return ([raw(b) for b in ([h.bins] if h.ndim == 1 else h.bins)], edges, raw(h.frequencies), raw(h.errors2), missed,
+            bool(h.keep_missed), str(h.dtype), repr(h.total), bool(h.is_adaptive()), tuple(h.axis_names),
+            [(type(b).__name__, bool(b.is_adaptive()), bool(b.includes_right_edge)) for b in binnings],
+            repr(getattr(h, "statistics", None)))
+
+
+def history_run(case):
+    from .. import impl1, implnd
+    nd = case["kind"] == "histn"
+    step, snap = (implnd.step, implnd.snapn) if nd else (impl1.step, impl1.snap1)
+    s = impl1.Store()
+    log, outs = [], []
+    last = None
+    for op in case["ops"]:
+        mark = len(log)
+        if op["op"] == "set_adaptive":
+            try:
+                s.get(op["h"]).set_adaptive(op["value"])
+                ret = "ok"
+            except Exception as e:
+                log.append(f"set_adaptive: {type(e).__name__}: {e}"[:200])
+                ret = "REFUSED"
+            outs.append({"ret": ret})
+            continue
+        if op["op"] not in INDEX_OPS:
+            outs.append({"ret": step(s, op, log)})
+            continue
+        h = s.get(op["h"])
+        mark_fp = fingerprint(h)
+        if last is None or last[0] != mark_fp:      # (unchanged since the last selection: the same snapshot serves)
+            last = (mark_fp, snap(h))
+        before = last[1]
+        cop = concrete_nd(op, [int(x) for x in h.shape]) if nd else concrete_1d(op, int(h.shape[0]))
+        if cop["op"] == "invalid" and not nd:
+            try:
+                h[slice(cop["start"], cop["stop"], cop["step"])]
+                ret = "accepted"
+            except Exception as e:
+                log.append(f"{type(e).__name__}: {e}"[:200])
+                ret = "REFUSED"
+        else:
+            ret = step(s, cop, log)
+            if nd and isinstance(ret, dict):
+                ret["_bin"] = nd_item_bin(h, cop["index"])
+        res = None
+        if ret == "ok":
+            res = snap(s.get(cop["out"]))
+            s.set(cop["out"], None)
+        # the source after the selection: the snapshot taken before it when nothing observable changed, a new one otherwise
+        after = before if fingerprint(h) == mark_fp else snap(h)
+        outs.append({"ret": ret, "op": cop, "before": before, "after": after, "res": res, "log": log[mark:]})
+    return {"outs": outs, "log": log}
 
 
 PROP = C11()
